@@ -539,8 +539,6 @@ func jpfMaxBy(arguments []interface{}) (interface{}, error) {
 	node := exp.ref
 	if len(arr) == 0 {
 		return nil, nil
-	} else if len(arr) == 1 {
-		return arr[0], nil
 	}
 	start, err := intr.Execute(node, arr[0])
 	if err != nil {
@@ -635,8 +633,6 @@ func jpfMinBy(arguments []interface{}) (interface{}, error) {
 	node := exp.ref
 	if len(arr) == 0 {
 		return nil, nil
-	} else if len(arr) == 1 {
-		return arr[0], nil
 	}
 	start, err := intr.Execute(node, arr[0])
 	if err != nil {
@@ -746,8 +742,6 @@ func jpfSortBy(arguments []interface{}) (interface{}, error) {
 	exp := arguments[2].(expRef)
 	node := exp.ref
 	if len(arr) == 0 {
-		return arr, nil
-	} else if len(arr) == 1 {
 		return arr, nil
 	}
 	start, err := intr.Execute(node, arr[0])
